@@ -374,7 +374,14 @@ func needDummyVP(t *testing.T) {
 func runCfgCase(t *testing.T, r *ev.Run, nc nodeCase) {
 	c := nc.Cfg
 	var obs actionObs
-	res := runNode(t, startSpec{Env: c.settings(t)}, func(sys *core.System, base string) { obs = actions(c, sys, base) })
+	mkSpec := func() startSpec {
+		env := c.settings(t)
+		for _, name := range nc.Spec.Unset { // the gated option is decided by the config file
+			delete(env, name)
+		}
+		return startSpec{Env: env, File: nc.Spec.File, Unset: nc.Spec.Unset} // File/Unset: the gating option of a "gating" case
+	}
+	res := runNode(t, mkSpec(), func(sys *core.System, base string) { obs = actions(c, sys, base) })
 	// "accepted with strict mode off" is the one direction in which a transient start-up failure of the sandbox (a port, NATS or
 	// SQLite hiccup on a loaded machine) would look like a violation: such a verdict has to reproduce twice more before it is believed.
 	failsNonStrict := func(res startResult, obs actionObs) bool {
@@ -388,22 +395,37 @@ func runCfgCase(t *testing.T, r *ev.Run, nc nodeCase) {
 	}
 	for retry := 0; retry < 2 && failsNonStrict(res, obs); retry++ {
 		var obs2 actionObs
-		res2 := runNode(t, startSpec{Env: c.settings(t)}, func(sys *core.System, base string) { obs2 = actions(c, sys, base) })
+		res2 := runNode(t, mkSpec(), func(sys *core.System, base string) { obs2 = actions(c, sys, base) })
 		if !failsNonStrict(res2, obs2) || refusalClass(res2.Refusal) != refusalClass(res.Refusal) {
 			r.AssumptionCheck("start-up verdicts are reproducible", false, fmt.Sprintf("%s: first run %q / %+v, repeat %q", ev.Key(c), res.Refusal, obs, res2.Refusal))
 			res, obs = res2, obs2
 		}
 	}
-	r.Eval(nc.Kind + ev.Key(c))
+	r.Eval(nc.Kind + nc.Flag + ev.Key(c))
 	ins := c.insecureStart()
 	sort.Strings(ins)
 	verdict := "refused"
 	if res.Started {
 		verdict = "started"
 	}
+	sig := strings.Join(ins, "+")
+	if nc.Kind == "gating" {
+		// a gating case: one insecure setting (or the strict baseline with dummy means) under one value of one other option
+		r.Outcome(fmt.Sprintf("gating: insecure=%v %s", len(ins) > 0, verdict))
+		if len(ins) == 0 {
+			r.AddExtra("gating_values_with_which_the_strict_baseline_"+verdict, 1)
+		}
+		if len(ins) > 0 && res.Started {
+			r.Violation("C20|node|strict-started|"+sig+"|gating:"+nc.Flag, fmt.Sprintf("strict mode on, configuration is insecure (%s) but with %s the node started: %s", sig, nc.Flag, ev.Key(c)), nc)
+		}
+		if !res.Started {
+			return
+		}
+		judgeActions(r, nc, c, res, obs, "|gating:"+nc.Flag)
+		return
+	}
 	r.Outcome(fmt.Sprintf("strict=%v insecure=%v %s", c.Strict, len(ins) > 0, verdict))
 	r.Sample(map[string]any{"cfg": c, "insecure_clauses": ins, "verdict": verdict, "refusal": res.Refusal, "actions": obs})
-	sig := strings.Join(ins, "+")
 
 	if nc.Kind == "observed-url" {
 		r.Observation(fmt.Sprintf("public url %q (class %s by the model) strict=%v: %s", c.URL, urlClass(c.URL), c.Strict, verdict), res.Refusal)
@@ -422,20 +444,25 @@ func runCfgCase(t *testing.T, r *ev.Run, nc nodeCase) {
 	if !res.Started {
 		return
 	}
+	judgeActions(r, nc, c, res, obs, "")
+}
+
+// judgeActions: the clauses judged at the action, on a node that started. sfx is appended to violation signatures (gating cases).
+func judgeActions(r *ev.Run, nc nodeCase, c nodeCfg, res startResult, obs actionObs, sfx string) {
 	if c.Strict && c.TLS == "disabled" && res.GRPCOpen {
-		r.Violation("C20|node|tls-off|grpc-listening", "strict mode on, no TLS certificate configured, yet the gRPC network address accepts connections: "+ev.Key(c), nc)
+		r.Violation("C20|node|tls-off|grpc-listening"+sfx, "strict mode on, no TLS certificate configured, yet the gRPC network address accepts connections: "+ev.Key(c), nc)
 	}
-	if c.TLS == "disabled" && !c.hasMethod("nuts") && c.Strict {
+	if c.TLS == "disabled" && !c.hasMethod("nuts") && c.Strict && sfx == "" {
 		r.Observation("strict mode, no TLS files, did:nuts disabled: node starts without a gRPC network (port closed)", nil)
 	}
 	// ---- clauses judged at the action
 	if strings.Contains(c.Validators, "dummy") {
 		if c.Strict {
 			if obs.DummyCreate == 201 {
-				r.Violation("C20|action|dummy-sign|strict", "strict mode on: a signing session with the dummy means was created: "+ev.Key(c), nc)
+				r.Violation("C20|action|dummy-sign|strict"+sfx, "strict mode on: a signing session with the dummy means was created: "+ev.Key(c), nc)
 			}
 			if obs.DummyVerify == "valid" {
-				r.Violation("C20|action|dummy-verify|strict", "strict mode on: a presentation of the dummy means was verified as valid: "+ev.Key(c), nc)
+				r.Violation("C20|action|dummy-verify|strict"+sfx, "strict mode on: a presentation of the dummy means was verified as valid: "+ev.Key(c), nc)
 			}
 			r.Outcome("dummy strict: create=" + fmt.Sprint(obs.DummyCreate) + " verify=" + obs.DummyVerify)
 		} else {
@@ -447,7 +474,7 @@ func runCfgCase(t *testing.T, r *ev.Run, nc nodeCase) {
 	}
 	if obs.LDUnlisted != "" {
 		if c.Strict && (obs.LDUnlisted == "loaded" || obs.LDUnlistedNet > 0) {
-			r.Violation("C20|action|jsonld-unlisted|strict", fmt.Sprintf("strict mode on: a JSON-LD context that is not on the allow list was %s (%d outbound attempts): %s", obs.LDUnlisted, obs.LDUnlistedNet, ev.Key(c)), nc)
+			r.Violation("C20|action|jsonld-unlisted|strict"+sfx, fmt.Sprintf("strict mode on: a JSON-LD context that is not on the allow list was %s (%d outbound attempts): %s", obs.LDUnlisted, obs.LDUnlistedNet, ev.Key(c)), nc)
 		}
 		if !c.Strict && obs.LDUnlisted != "loaded" {
 			r.Violation("C20|action|jsonld-unlisted|nonstrict-refused", "strict mode off: an unlisted remote JSON-LD context was refused: "+ev.Key(c), nc)
@@ -459,19 +486,19 @@ func runCfgCase(t *testing.T, r *ev.Run, nc nodeCase) {
 	}
 	if obs.IAMPlain != "" {
 		if c.Strict && obs.IAMPlainHits > 0 {
-			r.Violation("C20|outbound|plain-http|node:iam.ClientMetadata", "strict mode on: the node's IAM client sent a request to a plain-HTTP endpoint: "+ev.Key(c), nc)
+			r.Violation("C20|outbound|plain-http|node:iam.ClientMetadata"+sfx, "strict mode on: the node's IAM client sent a request to a plain-HTTP endpoint: "+ev.Key(c), nc)
 		}
 		if !c.Strict && obs.IAMPlain != "ok" {
 			r.Violation("C20|outbound|plain-http-nonstrict-refused|node:iam.ClientMetadata", "strict mode off: the node's IAM client refused a plain-HTTP endpoint: "+ev.Key(c), nc)
 		}
 		if c.Strict && obs.IAMRedirHits > 0 {
-			r.Violation("C20|outbound|redirect-to-http|node:iam.ClientMetadata", "strict mode on: the node's IAM client followed a redirect from https to plain http: "+ev.Key(c), nc)
+			r.Violation("C20|outbound|redirect-to-http|node:iam.ClientMetadata"+sfx, "strict mode on: the node's IAM client followed a redirect from https to plain http: "+ev.Key(c), nc)
 		}
 		r.Outcome(fmt.Sprintf("iam strict=%v: plain=%s redirect=%s", c.Strict, obs.IAMPlain, obs.IAMRedir))
 	}
 	if obs.VDRRedir != "n/a" {
 		if c.Strict && obs.VDRRedirHits > 0 {
-			r.Violation("C20|outbound|redirect-to-http|node:vdr.Resolve(did:web)", "strict mode on: did:web resolution followed a redirect from https to plain http ("+obs.VDRRedir+"): "+ev.Key(c), nc)
+			r.Violation("C20|outbound|redirect-to-http|node:vdr.Resolve(did:web)"+sfx, "strict mode on: did:web resolution followed a redirect from https to plain http ("+obs.VDRRedir+"): "+ev.Key(c), nc)
 		}
 		r.Outcome(fmt.Sprintf("did:web redirect to http strict=%v: %s", c.Strict, obs.VDRRedir))
 	}
